@@ -564,6 +564,21 @@ pub fn stream<F: Fam>(tier: &str, seed: u64) -> Vec<String> {
             out.push(format!("deca {} {} eof", F::NAME, h));
             out.push(format!("poll {} {} - eof", F::NAME, h));
         }
+        // PREFIXES of malformed frames that still contain the malformation: an error that can already be
+        // decided must be reported by the blocking and async decoders on the incomplete frame too (the
+        // blocking front-end = async with EOF mapped to incomplete, errors untouched)
+        if let Ok(enc) = F::encode(&p) {
+            for m in ms.iter().filter(|m| m.frame.len() == enc.len() && !m.past_frame).take(6) {
+                let last_diff = (0..enc.len()).rev().find(|k| m.frame[*k] != enc[*k]).unwrap_or(0);
+                for cut in [last_diff + 1, (last_diff + 1 + enc.len()) / 2, enc.len() - 1] {
+                    if cut > last_diff && cut < enc.len() {
+                        let h = hex(&m.frame[..cut]);
+                        out.push(format!("dec {} {}", F::NAME, h));
+                        out.push(format!("deca {} {} eof", F::NAME, h));
+                    }
+                }
+            }
+        }
         // TWO malformations at once (which one is reported is part of the observable behaviour: the model
         // fixes the order of checks, the correspondence compares it): pairs of same-length byte-substitution
         // malformations touching different positions of the same packet
